@@ -35,16 +35,22 @@ class _EventModel:
     ASYNC = ("wait",)
 
     def new(self, interp, cls, args, kwargs, fr):
-        obj = SObj(cls, {"flag": False}, tag="ev")
+        obj = SObj(cls, {"flag": False, "sticky": False}, tag="ev")
         interp.register_shared(obj)
         return obj
 
     def symbolic(self, interp, name):
         nm = interp.ctx.fresh_name(name + ".flag")
-        return SObj(self.real_class, {"flag": SymBool(z3.Bool(nm))}, tag=name)
+        obj = SObj(self.real_class, {"flag": SymBool(z3.Bool(nm)), "sticky": SymBool(z3.Bool(interp.ctx.fresh_name(name + ".sticky")))}, tag=name)
+        interp.register_shared(obj)
+        return obj
 
     def havoc(self, interp, obj):
-        obj.fields["flag"] = SymBool(z3.Bool(interp.ctx.fresh_name((obj.tag or "ev") + ".flag'")))
+        # sticky (ghost): nobody ever clears this event, so once set it stays set
+        old = _flag(obj.fields["flag"])
+        new_ = z3.Bool(interp.ctx.fresh_name((obj.tag or "ev") + ".flag'"))
+        interp.ctx.assume(z3.Implies(z3.And(_flag(obj.fields.get("sticky", False)), old), new_))
+        obj.fields["flag"] = SymBool(new_)
 
     def m_set(self, interp, obj, args, kwargs, fr):
         obj.fields["flag"] = True
@@ -55,11 +61,15 @@ class _EventModel:
     def m_wait(self, interp, obj, args, kwargs, fr):
         # returns only after the flag was set at some point; another task may run meanwhile
         interp.yield_point(fr, "Event.wait")
+        # ... and for an event that is never cleared it is still set
+        interp.ctx.assume(z3.Implies(_flag(obj.fields.get("sticky", False)), _flag(obj.fields["flag"])))
         return True
 
     def m_clear(self, interp, obj, args, kwargs, fr):
         if not self.HAS_CLEAR:
             raise mk_exc(AttributeError, "'Event' object has no attribute 'clear'", where=fr.where())
+        unit = getattr(interp, "unit_name", "?")
+        interp.ctx.prove(f"{unit}.call.Event.clear.not-sticky", z3.Not(_flag(obj.fields.get("sticky", False))), "an event declared never-cleared (sticky) is not cleared", fr.where(), note="precondition of Event.clear")
         obj.fields["flag"] = False
 
 
@@ -127,6 +137,7 @@ class AsyncioQueue:
 
     def m_put(self, interp, obj, args, kwargs, fr):
         interp.traces.setdefault(f"put:{obj.tag}", []).append(args[0])
+        interp.traces.setdefault("app_msgs", []).append(args[0])
         interp.yield_point(fr, "Queue.put")  # blocks while the queue is full
         return None
 
@@ -162,8 +173,14 @@ class PartialModel:
 
 @register(name="trio:SendChannel")
 class TrioSendChannel:
+    ASYNC = ("send", "aclose")
+
+    def symbolic(self, interp, name):
+        return SObj("trio:SendChannel", {"ch": SObj("trio:Channel", {}, tag=name)}, tag=name)
+
     def m_send(self, interp, obj, args, kwargs, fr):
         interp.traces.setdefault(f"put:{obj.fields['ch'].tag}", []).append(args[0])
+        interp.traces.setdefault("app_msgs", []).append(args[0])
         interp.yield_point(fr, "channel.send")  # always a checkpoint in trio
         return None
 
@@ -174,6 +191,11 @@ class TrioSendChannel:
 
 @register(name="trio:ReceiveChannel")
 class TrioReceiveChannel:
+    ASYNC = ("receive", "aclose")
+
+    def symbolic(self, interp, name):
+        return SObj("trio:ReceiveChannel", {"ch": SObj("trio:Channel", {}, tag=name)}, tag=name)
+
     def m_receive(self, interp, obj, args, kwargs, fr):
         interp.yield_point(fr, "channel.receive")
         return interp.make_symbolic("opaque", "received")
@@ -248,10 +270,14 @@ class AsyncioTaskGroup:
         return None
 
 
+def _new_nursery(tag):
+    return SObj("trio:Nursery", {"cancel_scope": SObj(trio.CancelScope, {"shield": False, "deadline": None, "cancelled": False}, tag=tag + ".cancel_scope")}, tag=tag)
+
+
 @register(name="trio:Nursery")
 class TrioNursery:
     def symbolic(self, interp, name):
-        return SObj("trio:Nursery", {}, tag=name)
+        return _new_nursery(name)
 
     def m_start_soon(self, interp, obj, args, kwargs, fr):
         interp.traces.setdefault("spawned", []).append((args[0],) + tuple(args[1:]))
@@ -268,7 +294,7 @@ class TrioNursery:
         _bump_live(interp, 1)
         value = None
         if isinstance(fn, Closure):
-            ts = SObj("trio:TaskStatus", {}, tag="task_status")
+            ts = SObj("trio:TaskStatus", {"inline": True}, tag="task_status")
             try:
                 interp.call_value(fn, list(args[1:]), {"task_status": ts}, fr, awaited=True)
             except _Started as st:
@@ -290,8 +316,14 @@ class _Started(Exception):
 
 @register(name="trio:TaskStatus")
 class TrioTaskStatus:
+    def symbolic(self, interp, name):
+        return SObj("trio:TaskStatus", {"inline": False}, tag=name)
+
     def m_started(self, interp, obj, args, kwargs, fr):
-        raise _Started(args[0] if args else None)
+        if obj.fields.get("inline", True):
+            raise _Started(args[0] if args else None)
+        interp.traces.setdefault("started", []).append(args[0] if args else None)
+        return None
 
 
 @register(name="trio:NurseryManager")
@@ -300,11 +332,23 @@ class TrioNurseryManager:
         return SObj("trio:NurseryManager", {}, tag=name)
 
     def m___aenter__(self, interp, obj, args, kwargs, fr):
-        return SObj("trio:Nursery", {}, tag="nursery")
+        n = _new_nursery(interp.ctx.fresh_name("nursery"))
+        obj.fields["nursery"] = n
+        return n
 
     def m___aexit__(self, interp, obj, args, kwargs, fr):
+        """leaving `async with trio.open_nursery()`: waits for the children -- no longer than the
+        deadline of the nursery's cancel scope if one was set (they are cancelled then).  A body
+        that was cancelled (trio.Cancelled: a child failed) leaves with the children's errors."""
         interp.traces.setdefault("joined", []).append(("join", _timer_live(interp)))
+        exc = args[1] if len(args) > 1 else None
+        n = obj.fields.get("nursery")
+        dl = n.fields["cancel_scope"].fields.get("deadline") if isinstance(n, SObj) else None
         interp.yield_point(fr, "nursery.__aexit__")
+        if dl is not None:
+            interp.ctx.assume(now(interp) <= _real(dl))
+        if isinstance(exc, SObj) and exc.cls is trio.Cancelled:
+            raise PyRaise(SObj(BaseExceptionGroup, {"args": ()}), fr.where())
         return None
 
 
@@ -314,21 +358,38 @@ def _trio_builtins(interp):
 
 
 # ------------------------------------------------------------------------------------ exception groups
+def group_flags(interp, obj, types):
+    """(has_match, has_rest) of an exception group for a tuple of exception classes: symbolic
+    booleans, cached per type set, at least one of them true (a group is never empty)"""
+    classes = types if isinstance(types, tuple) else (types,)
+    key = ",".join(sorted(getattr(c, "__name__", str(c)) for c in classes))
+    fm, fr_ = f"match:{key}", f"rest:{key}"
+    if fm not in obj.fields:
+        ctx = interp.ctx
+        m = z3.Bool(ctx.fresh_name(f"group.has[{key}]"))
+        r = z3.Bool(ctx.fresh_name(f"group.other-than[{key}]"))
+        ctx.assume(z3.Or(m, r))
+        obj.fields[fm], obj.fields[fr_] = SymBool(m), SymBool(r)
+    return obj.fields[fm], obj.fields[fr_]
+
+
 class _ExcGroupModel:
-    """BaseExceptionGroup raised by a nursery / task group: split(T) -> (matching, rest)"""
+    """BaseExceptionGroup raised by a nursery / task group / application.  split(T) ->
+    (matching or None, rest or None); subgroup(T) -> matching or None"""
 
     def m_split(self, interp, obj, args, kwargs, fr):
-        only = obj.fields.get("only_cancelled")
-        if only is None:
-            only = obj.fields["only_cancelled"] = SymBool(z3.Bool(interp.ctx.fresh_name("group.only_cancelled")))
-        if interp.ctx.branch(_flag(only), "group only cancelled"):
-            return (obj, None)
-        return (None, SObj(BaseExceptionGroup, {"args": (), "only_cancelled": False}))
+        m, r = group_flags(interp, obj, args[0])
+        has_m = interp.ctx.branch(_flag(m), f"group has match@{fr.line}")
+        has_r = interp.ctx.branch(_flag(r), f"group has rest@{fr.line}")
+        match = SObj(BaseExceptionGroup, {"args": (), "part_of": obj, "only": args[0]}) if has_m else None
+        rest = SObj(BaseExceptionGroup, {"args": (), "part_of": obj}) if has_r else None
+        return (match, rest)
 
     def m_subgroup(self, interp, obj, args, kwargs, fr):
-        if interp.ctx.choose(2, f"subgroup@{fr.line}", ["none", "some"]) == 0:
-            return None
-        return SObj(BaseExceptionGroup, {"args": ()})
+        m, _r = group_flags(interp, obj, args[0])
+        if interp.ctx.branch(_flag(m), f"group has match@{fr.line}"):
+            return SObj(BaseExceptionGroup, {"args": (), "part_of": obj, "only": args[0]})
+        return None
 
 
 MODEL_BY_REAL[BaseExceptionGroup] = _ExcGroupModel()
